@@ -244,6 +244,13 @@ def _structured(proto):
         [n(0), "ck:0", "done:0", "crash:p", "poison:1", "rel:0", "done:1", "crash:p"],
         [n(0), "ck:0", "done:0", "crash:p", "ck2:0", "done:3", "done:2", "done:1", "crash:e"],
     ]
+    # subscribers whose protocol keys differ in exactly ONE component (C-VLAN, S-VLAN + sub-interface, each MAC byte):
+    # one is released, the other restored under its own full key; then the other way round; then both across two restarts
+    for k in range(1, 8):
+        hs += [[n(0), n(k), "ck:0", "ck:%d" % k, "done:0", "done:1", "rel:%d" % k, "crash:p", n(8 - k if 8 - k != k else 1)],
+               [n(k), n(0), "cks:%d" % k, "cks:0", "rel:0", "crash:e", "ck:%d" % k, "done:0", "rel:%d" % k, "crash:p"]]
+    hs += [[n(i) for i in range(8)] + ["cks:%d" % i for i in range(8)] + ["rel:1", "rel:4", "crash:p", "rel:0", "rel:6", "crash:e"],
+           [n(8), n(0), n(2), "ck:8", "ck:2", "ck:0", "done:2", "done:1", "done:0", "rel:2", "crash:p", "rel:8", "crash:p"]]
     if proto == "ipoe":
         hs += [[n(0, fl="a"), "ck:0", "done:0", "crash:p", "ck:0", "done:1", "crash:p"],
                [n(0, fl="ba", a="a:a:-"), "ck:0", "done:0", "crash:e", n(1, a="a:a:-")],
@@ -275,11 +282,18 @@ def _ow_cases(rng, n):
         "pa:a:1 pa:b:7 del:a ok:b err:a ok:a", "del:a err:a pa:a:1 ok:a", "pa:a:1 del:a pa:a:2 err:a ok:a ok:a",
         "pa:a:1 pa:a:2 pa:a:3 del:a pa:a:4 ok:a ok:a ok:a", "pa:a:1 ok:a pa:a:2 err:a pa:a:3 ok:a del:a err:a",
     ]
+    # keys that differ from a in exactly one component: b (key), c (namespace), d (same namespace+key concatenation):
+    # an operation on one of them never waits for, and is never affected by, an operation on another
+    for x in "bcd":
+        fixed += ["pa:a:1 pa:%s:2 ok:%s ok:a" % (x, x), "pa:a:1 del:%s ok:%s del:a ok:a ok:a" % (x, x),
+                  "ps:%s:1 pa:a:2 del:a ok:a ok:%s ok:a" % (x, x), "pa:%s:1 err:%s del:a ok:a pa:%s:2 ok:%s" % (x, x, x, x),
+                  "del:a pa:%s:5 ps:a:6 ok:%s err:a ok:a" % (x, x)]
+    fixed += ["pa:a:1 pa:b:2 pa:c:3 pa:d:4 ok:d ok:c ok:b ok:a", "pa:a:1 pa:c:2 pa:d:3 del:a del:c del:d ok:c ok:d ok:a ok:a ok:c ok:d"]
     out = ["ow " + f for f in fixed]
     for _ in range(n):
-        ops, outstanding, v = [], {"a": 0, "b": 0}, 1
+        ops, outstanding, v = [], {"a": 0, "b": 0, "c": 0, "d": 0}, 1
         for _ in range(rng.choice([4, 7, 10, 14])):
-            k = rng.choice("aab")
+            k = rng.choice("aaabcd")
             r = rng.random()
             if r < 0.30:
                 ops.append("pa:%s:%d" % (k, v)); v += 1; outstanding[k] += 1
@@ -320,6 +334,23 @@ def _sq_cases(rng, n):
     return out
 
 
+_SESS_OPS = {"new": 1, "ck": 1, "ck2": 1, "ckrel": 1, "cks": 1, "cksf": 1, "rel": 1, "relf": 1, "delretry": 1, "giveup": 1,
+             "bind4": 1, "failrel": 2, "relstop": 1, "crash": 2}
+
+
+def _remap(ops, perm):
+    """rename the sessions of a history (index -> perm[index]): the identity of a session (MAC / S-VLAN / C-VLAN) is a
+    function of its index, so this varies WHICH key components distinguish the sessions of the history"""
+    out = []
+    for o in ops:
+        a = o.split(":")
+        pos = _SESS_OPS.get(a[0])
+        if pos is not None and len(a) > pos and a[pos].isdigit() and int(a[pos]) < len(perm):
+            a[pos] = str(perm[int(a[pos])])
+        out.append(":".join(a))
+    return out
+
+
 def gen_cases(rng, tier, budget):
     cases = _ow_cases(rng, 150 if tier == "quick" else 1500) + _sq_cases(rng, 12 if tier == "quick" else 150)
     cases.append("race %d" % (15000 if tier == "quick" else 400000))
@@ -337,6 +368,10 @@ def gen_cases(rng, tier, budget):
             ops.append("crash:" + rng.choice("pe"))
             if rng.random() < 0.6:
                 ops.append(_new(rng, proto, 7))
+        if rng.random() < 0.6:
+            perm = list(range(8))
+            rng.shuffle(perm)
+            ops = _remap(ops, perm)
         cases.append("%s %d %d %d %s" % (proto, n4, n6, kpd, " ".join(ops)))
     return cases
 
